@@ -12,6 +12,7 @@ from .. import loops, tlc
 
 EXIT_DELAY_MS = 100
 MAXA = 8
+MAXI = 5        # MaxI of EventLoopOps.tla: enter_idle() calls per scenario
 BUSY_MS = 15    # BusyD of EventLoop.tla: a busy start-up period / a slow callback
 
 
@@ -23,14 +24,50 @@ def run_scenario(loop_name, scn, max_waits=400):
     env = loops.Env({f + 1: w["at"] for f, w in enumerate(scn["watches"]) if w["at"] < 9000}, max_waits=max_waits)
     env.fd0 = bool(scn.get("fd0"))      # present watched descriptor 1 as file descriptor 0 (where the loop's double allows it)
     ad = loops.ADAPTERS[loop_name](env)
-    state = {"nextid": na + 2, "nextidle": ni + 1, "alarm_h": {}, "watch_h": {}, "idle_h": {}}
+    state = {"nextid": na + 2, "nextidle": ni + 1, "alarm_h": {}, "watch_h": {}, "idle_h": {}, "wgen": {}, "watched": set()}
     outcome = {"t": "run_end", "outcome": "return", "exc": ""}
+    running = [False]
     try:
         loop = ad.make()
 
         def sync():
             if hasattr(ad, "sync"):
                 ad.sync()
+
+        def tgt_of(kind, me, own, n):
+            """Tgt of EventLoop.tla: a callback of the same kind aims at its successor, the k-th call before run() at the k-th, others at the first."""
+            if n == 0:
+                return 0
+            return (me % n) + 1 if kind == own else ((me - 1) % n) + 1 if kind == "pre" else 1
+
+        def call(name, fn, *a):
+            """A call of the loop's API made by the program outside any callback: if the call itself raises, that is what is recorded."""
+            if running[0]:
+                return True, fn(*a)
+            try:
+                return True, fn(*a)
+            except Exception as ex:  # noqa: BLE001
+                env.log(t="call_failed", call=name, exc=type(ex).__name__)
+                return False, None
+
+        def remove_idle(tgt):
+            if tgt in state["idle_h"]:
+                ok, ret = call("remove_idle", loop.remove_enter_idle, state["idle_h"][tgt])
+                if ok:
+                    env.log(t="remove_idle", id=tgt, ret=bool(ret))
+
+        def add_idle():
+            if state["nextidle"] <= MAXI:
+                i = state["nextidle"]
+                state["nextidle"] += 1
+                reg_idle(i, "noop")
+
+        def remove_watch(tgt):
+            ok, ret = call("remove_watch", loop.remove_watch_file, state["watch_h"][tgt])
+            if ok:
+                state["watched"].discard(tgt)
+                env.log(t="remove_watch", fd=tgt, ret=bool(ret))
+            return ok
 
         def do(beh, kind, me):
             if beh in ("addAlarm", "addAlarm0"):
@@ -44,33 +81,39 @@ def run_scenario(loop_name, scn, max_waits=400):
                     i = state["nextid"]
                     state["nextid"] += 1
                     reg_alarm(i, 0, "noop")
-            elif beh == "addIdle":      # enter_idle() from within a callback
-                if state["nextidle"] <= 3:
-                    i = state["nextidle"]
-                    state["nextidle"] += 1
-                    reg_idle(i, "noop")
+            elif beh == "addIdle":      # enter_idle() from within a callback (or before run(), after removals)
+                add_idle()
+            elif beh == "replaceIdle":  # one idle callback is dropped and a new one registered in its place
+                remove_idle(tgt_of(kind, me, "idle", ni))
+                add_idle()
+            elif beh.startswith(("removeIdle:", "replaceIdle:")):      # one particular idle callback (directed scenarios)
+                remove_idle(int(beh.split(":")[1]))
+                if beh.startswith("replaceIdle:"):
+                    add_idle()
+            elif beh == "rewatch":      # the descriptor is watched again (a new watch with a callback of its own) after its watch, if any, was removed
+                tgt = tgt_of(kind, me, "watch", nf)
+                if tgt:
+                    if tgt not in state["watched"] or remove_watch(tgt):
+                        reg_watch(tgt, "noop")
             elif beh.startswith("removeAlarm:"):      # remove one particular alarm (directed scenarios)
                 tgt = int(beh.split(":")[1])
-                ret = loop.remove_alarm(state["alarm_h"][tgt])
-                env.log(t="remove_alarm", id=tgt, ret=bool(ret))
-            elif beh in ("removeAlarm", "removeAlarmTwice"):
-                tgt = (me % na) + 1 if kind == "alarm" else 1
-                for _ in range(2 if beh == "removeAlarmTwice" else 1):
-                    ret = loop.remove_alarm(state["alarm_h"][tgt])
+                ok, ret = call("remove_alarm", loop.remove_alarm, state["alarm_h"][tgt])
+                if ok:
                     env.log(t="remove_alarm", id=tgt, ret=bool(ret))
+            elif beh in ("removeAlarm", "removeAlarmTwice"):
+                tgt = tgt_of(kind, me, "alarm", na)
+                for _ in range(2 if beh == "removeAlarmTwice" else 1):
+                    ok, ret = call("remove_alarm", loop.remove_alarm, state["alarm_h"][tgt])
+                    if ok:
+                        env.log(t="remove_alarm", id=tgt, ret=bool(ret))
             elif beh == "removeWatch":
-                tgt = (me % nf) + 1 if kind == "watch" else 1
+                tgt = tgt_of(kind, me, "watch", nf)
                 if tgt in state["watch_h"]:
-                    ret = loop.remove_watch_file(state["watch_h"][tgt])
-                    env.log(t="remove_watch", fd=tgt, ret=bool(ret))
+                    remove_watch(tgt)
             elif beh == "removeSelfWatch" and kind == "watch":
-                ret = loop.remove_watch_file(state["watch_h"][me])
-                env.log(t="remove_watch", fd=me, ret=bool(ret))
+                remove_watch(me)
             elif beh == "removeIdle":
-                tgt = (me % ni) + 1 if kind == "idle" else 1
-                if tgt in state["idle_h"]:
-                    ret = loop.remove_enter_idle(state["idle_h"][tgt])
-                    env.log(t="remove_idle", id=tgt, ret=bool(ret))
+                remove_idle(tgt_of(kind, me, "idle", ni))
             elif beh == "slow":
                 ad.slow(BUSY_MS)
             elif beh == "exit":
@@ -79,6 +122,9 @@ def run_scenario(loop_name, scn, max_waits=400):
             elif beh == "error":
                 env.log(t="raise", kind="error")
                 raise loops.VfError("scripted")
+            elif beh == "base":         # a BaseException that is not an Exception (what KeyboardInterrupt, SystemExit, CancelledError are)
+                env.log(t="raise", kind="base")
+                raise loops.VfBase("scripted")
 
         def reg_alarm(i, delay_ms, beh):
             def cb():
@@ -87,18 +133,23 @@ def run_scenario(loop_name, scn, max_waits=400):
                 do(beh, "alarm", i)
 
             env.log(t="reg_alarm", id=i, delay=delay_ms * 1000)
-            state["alarm_h"][i] = loop.alarm(delay_ms / 1000.0, cb)
+            _, state["alarm_h"][i] = call("alarm", loop.alarm, delay_ms / 1000.0, cb)
 
         def reg_watch(f, beh):
+            gen = state["wgen"][f] = state["wgen"].get(f, 0) + 1      # each watch_file() call is a watch of its own
+
             def cb():
                 sync()
-                env.log(t="watch_cb", fd=f, now=env.us())
+                env.log(t="watch_cb", fd=f, gen=gen, now=env.us())
                 env.readable.discard(f)
                 env.log(t="drain", fd=f)
                 do(beh, "watch", f)
 
-            env.log(t="reg_watch", fd=f)
-            state["watch_h"][f] = loop.watch_file(ad.fd(f), cb)
+            env.log(t="reg_watch", fd=f, gen=gen)
+            ok, h = call("watch_file", loop.watch_file, ad.fd(f), cb)
+            if ok:
+                state["watch_h"][f] = h
+                state["watched"].add(f)
 
         def reg_idle(i, beh):
             def cb():
@@ -107,7 +158,7 @@ def run_scenario(loop_name, scn, max_waits=400):
                 do(beh, "idle", i)
 
             env.log(t="reg_idle", id=i)
-            state["idle_h"][i] = loop.enter_idle(cb)
+            _, state["idle_h"][i] = call("enter_idle", loop.enter_idle, cb)
 
         for i, a in enumerate(scn["alarms"], 1):
             reg_alarm(i, a["delay"], a["beh"])
@@ -118,6 +169,9 @@ def run_scenario(loop_name, scn, max_waits=400):
             reg_watch(f, w["beh"])
         for i, b in enumerate(scn["idles"], 1):
             reg_idle(i, b)
+        for k, b in enumerate(scn.get("pre", ()), 1):      # the program goes on calling the API before run()
+            do(b, "pre", k)
+        running[0] = True
         try:
             with contextlib.redirect_stdout(io.StringIO()):  # TwistedEventLoop prints sys.exc_info() on errors
                 loop.run()
@@ -128,11 +182,13 @@ def run_scenario(loop_name, scn, max_waits=400):
         except BaseException as ex:  # noqa: BLE001
             outcome["outcome"] = "raise"
             outcome["exc"] = type(ex).__name__
-            if scn.get("rerun") and isinstance(ex, loops.VfError) and loop_name in ("select", "asyncio", "zmq", "tornado") and state["nextid"] <= MAXA:
+            if scn.get("rerun") and isinstance(ex, (loops.VfError, loops.VfBase)) and loop_name in ("select", "asyncio", "zmq", "tornado") and state["nextid"] <= MAXA:
                 # the same loop object is run again: the error of the first run must not come back
-                env.log(t="run_end", outcome="raise", exc="VfError")
+                env.log(t="run_end", outcome="raise", exc=type(ex).__name__)
                 env.log(t="rerun")
+                running[0] = False
                 reg_alarm(state["nextid"], 10, "exit")      # an identifier of its own (callbacks of the second run may add alarms too)
+                running[0] = True
                 state["nextid"] += 1
                 outcome = {"t": "run_end", "outcome": "return", "exc": ""}
                 try:
@@ -152,8 +208,8 @@ def run_scenario(loop_name, scn, max_waits=400):
                         flat(x) if isinstance(x, BaseExceptionGroup) else leaves.append(x)
 
                 flat(ex)
-                if leaves and all(isinstance(x, loops.VfError) for x in leaves):
-                    outcome["exc"] = "VfError"  # several callbacks raised in one tick
+                if leaves and all(isinstance(x, (loops.VfError, loops.VfBase)) for x in leaves):
+                    outcome["exc"] = type(leaves[0]).__name__  # several callbacks raised in one tick: a group of exactly what they raised
             outcome["msg"] = str(ex)[:120]
     finally:
         ad.close()
@@ -165,12 +221,14 @@ def scn_from_state(st):
     sc = st["scn"]
     return {"alarms": [{"delay": a["delay"], "beh": a["beh"]} for a in sc["alarms"]],
             "watches": [{"at": w["at"], "beh": w["beh"]} for w in sc["watches"]],
-            "idles": list(sc["idles"]), "busy": int(sc["busy"]), "fd0": (len(sc["alarms"]) + len(sc["watches"])) % 2 == 0}
+            "idles": list(sc["idles"]), "busy": int(sc["busy"]), "pre": list(sc["pre"]), "fd0": (len(sc["alarms"]) + len(sc["watches"])) % 2 == 0}
 
 
-ABEH = ["noop", "addAlarm", "addAlarm0", "slowAddAlarm0", "addIdle", "removeAlarm", "removeAlarmTwice", "removeWatch", "removeIdle", "slow", "exit", "error"]
-WBEH = ["noop", "addAlarm0", "slowAddAlarm0", "addIdle", "removeWatch", "removeSelfWatch", "removeAlarm", "slow", "error"]
-IBEH = ["noop", "removeIdle", "error"]
+ABEH = ["noop", "addAlarm", "addAlarm0", "slowAddAlarm0", "addIdle", "replaceIdle", "removeAlarm", "removeAlarmTwice", "removeWatch", "rewatch",
+        "removeIdle", "slow", "exit", "error", "base"]
+WBEH = ["noop", "addAlarm0", "slowAddAlarm0", "addIdle", "replaceIdle", "removeWatch", "removeSelfWatch", "rewatch", "removeAlarm", "slow", "error", "base"]
+IBEH = ["noop", "removeIdle", "error", "base"]
+PRE = ["removeIdle", "addIdle", "replaceIdle", "rewatch", "removeWatch", "removeAlarm"]
 
 
 def random_scn(rng):
@@ -178,7 +236,8 @@ def random_scn(rng):
     return {"alarms": [{"delay": rng.choice([0, 0, 10, 10, 20, 30, 50]), "beh": rng.choice(ABEH + ["noop", "slow"])} for _ in range(na)],
             "watches": [{"at": rng.choice([9999, 0, 0, 10, 15, 25]), "beh": rng.choice(WBEH + ["noop", "exit"])} for _ in range(nf)],
             "idles": [rng.choice(IBEH + ["noop", "noop", "exit", "slow"]) for _ in range(ni)], "fd0": rng.random() < 0.5,
-            "rerun": rng.random() < 0.4, "busy": rng.choice([0, 0] + list(range(1, na + 1)))}
+            "rerun": rng.random() < 0.4, "busy": rng.choice([0, 0] + list(range(1, na + 1))),
+            "pre": [rng.choice(PRE) for _ in range(rng.choice([0, 0, 0, 1, 2]))]}
 
 
 def heap_scns(rng, n):
@@ -263,6 +322,77 @@ def removed_watch_scns(rng, n):
     return out
 
 
+def rewatch_scns(rng, n):
+    """Two or three descriptors that become readable at the SAME moment (one loop iteration is told about all of them); a callback that
+    runs takes another descriptor over: removes its watch and watches it again (a new watch with a callback of its own).  The callback
+    of the removed watch must not run any more, the new one has to.  Alarms due at that moment (which may do the same), plain
+    removals, idle callbacks and a re-watch before run() around it."""
+    out = []
+    for _ in range(n):
+        at = rng.choice([0, 0, 10, 15])
+        nf = rng.choice([2, 2, 3])
+        ws = [{"at": at, "beh": rng.choice(["rewatch", "rewatch", "noop", "removeWatch", "slow"])} for _ in range(nf)]
+        ws[rng.randrange(nf)]["beh"] = "rewatch"
+        if rng.random() < 0.3:
+            ws[-1]["at"] = rng.choice([9999, at + 10])
+        alarms = [{"delay": rng.choice([0, at, at, at + 10, 30]), "beh": rng.choice(["noop", "noop", "rewatch", "removeWatch", "slow"])}
+                  for _ in range(rng.randint(0, 2))]
+        out.append({"alarms": alarms, "watches": ws, "idles": ["noop"] * rng.randint(0, 1), "fd0": rng.random() < 0.5, "rerun": False, "busy": 0,
+                    "pre": rng.choice([[], [], [], ["rewatch"], ["removeWatch", "rewatch"]])})
+    return out
+
+
+def raise_scns(rng, n):
+    """One callback (alarm, descriptor, idle) raises -- an Exception, or a BaseException that is not one -- while the session has more
+    to come (later alarms, a descriptor that becomes readable later): the loop must stop there and run() must raise that exception."""
+    out = []
+    for _ in range(n):
+        kind = rng.choice(["base", "base", "error"])
+        where = rng.choice(["alarm", "watch", "idle"])
+        t = rng.choice([0, 10, 20])
+        alarms = [{"delay": t + rng.choice([10, 20, 30]), "beh": rng.choice(["noop", "slow", "addAlarm0"])} for _ in range(rng.randint(1, 2))]
+        watches, idles = [], ["noop"] * rng.randint(0, 1)
+        if where == "alarm":
+            alarms.append({"delay": t, "beh": kind})
+        elif where == "watch":
+            watches.append({"at": t, "beh": kind})
+        else:
+            idles.insert(rng.randint(0, len(idles)), kind)
+            alarms.append({"delay": t, "beh": "noop"})
+        if rng.random() < 0.5:
+            watches.append({"at": t + rng.choice([5, 15]), "beh": "noop"})
+        rng.shuffle(alarms)
+        out.append({"alarms": alarms, "watches": watches, "idles": idles, "fd0": rng.random() < 0.5, "rerun": rng.random() < 0.3, "busy": 0, "pre": []})
+    return out
+
+
+def idle_churn_scns(rng, n):
+    """Idle callbacks come and go: two or three at the start, then some are removed and new ones registered -- before run() and from
+    alarm / descriptor callbacks, as two calls or in one callback, any of the registered ones being the one removed -- with callbacks
+    after every change: each registered idle callback has to run after them, no removed one may."""
+    out = []
+    for _ in range(n):
+        ni = rng.choice([2, 2, 3])
+
+        def change():
+            return rng.choice(["removeIdle", "addIdle", "replaceIdle", f"removeIdle:{rng.randint(1, ni)}", f"replaceIdle:{rng.randint(1, ni + 1)}"])
+
+        pre = [change() for _ in range(rng.choice([0, 0, 1, 2, 3]))]
+        times = sorted(rng.sample([0, 10, 20, 30, 40, 50, 60], rng.randint(2, 5)))
+        alarms, watches = [], []
+        for t in times:
+            b = rng.choice([change(), change(), "noop"])
+            if rng.random() < 0.3 and len(watches) < 3:
+                watches.append({"at": t, "beh": b})
+            else:
+                alarms.append({"delay": t, "beh": b})
+        if not alarms:
+            alarms.append({"delay": 70, "beh": "noop"})
+        out.append({"alarms": alarms, "watches": watches, "idles": [rng.choice(["noop", "noop", "noop", "removeIdle"]) for _ in range(ni)],
+                    "fd0": rng.random() < 0.5, "rerun": False, "busy": 0, "pre": pre})
+    return out
+
+
 def overdue_count(tr):
     """Vacuity counter (not a verdict): registrations of a zero-delay alarm while an alarm with a positive delay and an EARLIER due time is pending, i.e. overdue."""
     now, pend, n, running = 0, {}, {"startup": 0, "callback": 0}, False
@@ -289,17 +419,41 @@ def overdue_count(tr):
 def family_counts(tr):
     """Vacuity counters (not a verdict): enter_idle() from a callback while no idle callback is registered; a watch removed before its
     descriptor became readable, which then does become readable (on descriptor 0 / another descriptor)."""
-    n = {"idle_registered_late_with_none_active": 0, "watch_removed_then_readable": 0, "watch_removed_then_readable.fd0": 0}
+    n = {"idle_registered_late_with_none_active": 0, "watch_removed_then_readable": 0, "watch_removed_then_readable.fd0": 0,
+         "ready_descriptor_rewatched_by_another_ready_one": 0, "rewatched_descriptor_callback": 0,
+         "idle_registered_after_removal.startup": 0, "idle_registered_after_removal.callback": 0, "idle_callback_after_churn": 0,
+         "raise.base.alarm_cb": 0, "raise.base.watch_cb": 0, "raise.base.idle_cb": 0}
     active, removed, running = set(), set(), False
+    told, readable, cur, idle_gone, churned = set(), set(), None, False, False
     fd0 = bool(tr["scn"].get("fd0")) and loops.ADAPTERS[tr["loop"]].zero_ok
     for e in tr["ev"]:
         t = e["t"]
         running = running or t in ("wait", "alarm_cb", "watch_cb", "idle_cb")
+        if t in ("alarm_cb", "watch_cb", "idle_cb"):
+            cur = e
+        if t in ("wait", "woke") and e["ready"]:
+            told = set(e["ready"])      # the descriptors the loop was told are ready, all at once
+        elif t == "env_readable":
+            readable.add(e["fd"])
+        elif t == "drain":
+            readable.discard(e["fd"])
+        if t == "reg_watch" and e["gen"] > 1 and cur and cur["t"] == "watch_cb" and cur["fd"] != e["fd"] and {cur["fd"], e["fd"]} <= told and e["fd"] in readable:
+            n["ready_descriptor_rewatched_by_another_ready_one"] += 1
+        elif t == "watch_cb" and e["gen"] > 1:
+            n["rewatched_descriptor_callback"] += 1
+        elif t == "raise" and e["kind"] == "base" and cur:
+            n["raise.base." + cur["t"]] += 1
+        elif t == "idle_cb" and churned:
+            n["idle_callback_after_churn"] += 1
         if t == "reg_idle":
             if running and not active:
                 n["idle_registered_late_with_none_active"] += 1
+            if idle_gone and active:      # an earlier idle callback was removed, others are still registered: a new handle among live ones
+                n["idle_registered_after_removal." + ("callback" if running else "startup")] += 1
+                churned = True
             active.add(e["id"])
         elif t == "remove_idle":
+            idle_gone = idle_gone or e["id"] in active
             active.discard(e["id"])
         elif t == "remove_watch":
             removed.add(e["fd"])
@@ -319,6 +473,7 @@ ABeh = {abeh}
 WBeh = {wbeh}
 IBeh = {ibeh}
 Busy = {busy}
+Pre = {pre} MaxPre = {maxpre}
 SPECIFICATION Spec
 INVARIANT ContractHolds
 INVARIANT Terminates
@@ -347,62 +502,11 @@ def _handle(chk, traces, res, label):
         chk.reject(f"C13.{why}", sig_of(tr, l), {"driver": label, "loop": tr["loop"], "scn": tr["scn"], "events_up_to_rejection": tr["ev"][:l]})
 
 
-def run(chk, loops_to_run=None):
-    quick = chk.tier == "quick"
+def directed_traces(chk, names, quick):
+    """The scenarios that do not come from TLC: seeded random ones and the directed families, run on the real loops."""
     rng = chk.rng
-    names = loops_to_run or LOOPS
-    # ---- MC: the contract is satisfiable by a correct loop for every scenario; bad loops are refuted ----
-    if quick:
-        cfg = MC_CFG.format(na=2, nf=1, ni=2, bad="", delays=_q([0, 10]), ats=_q([9999, 0, 15]),
-                            abeh=_q(["noop", "addAlarm", "addIdle", "removeAlarmTwice", "removeWatch", "removeIdle", "slow", "error"]),
-                            wbeh=_q(["noop", "removeSelfWatch", "removeAlarm", "slow", "error"]), ibeh=_q(IBEH), busy=_q([0]))
-        # zero-delay alarms against overdue alarms: busy start-up after any alarm, slow callbacks that register a zero-delay alarm
-        cfg0 = MC_CFG.format(na=2, nf=1, ni=1, bad="", delays=_q([0, 10, 20]), ats=_q([0, 10]), abeh=_q(["noop", "addAlarm0", "slowAddAlarm0", "removeAlarm"]),
-                             wbeh=_q(["noop", "slowAddAlarm0"]), ibeh=_q(["noop"]), busy=_q([0, 1, 2]))
-    else:
-        zero = ("addAlarm0", "slowAddAlarm0")     # these have their own exhaustive run (cfg0): the two scenario spaces add up instead of multiplying
-        cfg = MC_CFG.format(na=2, nf=2, ni=2, bad="", delays=_q([0, 10, 20]), ats=_q([9999, 0, 15]), abeh=_q([b for b in ABEH if b not in zero]),
-                            wbeh=_q([b for b in WBEH if b not in zero]), ibeh=_q(IBEH), busy=_q([0]))
-        cfg0 = MC_CFG.format(na=3, nf=1, ni=1, bad="", delays=_q([0, 10, 20]), ats=_q([0, 10]),
-                             abeh=_q(["noop", "addAlarm0", "slowAddAlarm0", "removeAlarm"]),
-                             wbeh=_q(["noop", "slowAddAlarm0"]), ibeh=_q(["noop"]), busy=_q([0, 1, 2, 3]))
-    with cf.ThreadPoolExecutor(2) as ex:      # the two exhaustive runs overlap (JVM start dominates on a loaded machine)
-        f0 = ex.submit(tlc.mc, "EventLoop", cfg0, workers=3 if quick else 6, timeout=3000, heap="8g")
-        r = tlc.mc("EventLoop", cfg, workers=6, timeout=3000, heap="12g")
-        r0 = f0.result()
-    chk.add_mc("MC_EventLoop_contract_satisfiable", r)
-    chk.add_mc("MC_EventLoop_zero_delay_vs_overdue_satisfiable", r0)
-    for rr in (r, r0):
-        if not rr.ok:
-            chk.reject("C13.model." + str(rr.violated), {"model": "EventLoop"}, {"tlc_trace": rr.trace[-5:]})
-    refuted = {}
-
-    def refute(bad):
-        if bad == "zeroDelayFirst":
-            cfgb = MC_CFG.format(na=2, nf=1, ni=1, bad=bad, delays=_q([0, 10]), ats=_q([9999, 0]), abeh=_q(["noop", "slowAddAlarm0"]),
-                                 wbeh=_q(["noop", "slowAddAlarm0"]), ibeh=_q(["noop"]), busy=_q([0, 1]))
-        else:
-            cfgb = MC_CFG.format(na=2, nf=2, ni=1, bad=bad, delays=_q([0, 10]), ats=_q([9999, 0]), abeh=_q(["noop", "slow", "removeWatch"]),
-                                 wbeh=_q(["noop", "removeWatch", "slow"]), ibeh=_q(["noop"]), busy=_q([0]))
-        return bad, tlc.mc("EventLoop", cfgb, workers=2, timeout=900)
-
-    with cf.ThreadPoolExecutor(2) as ex:
-        bad_runs = list(ex.map(refute, ("blockDirty", "alarmOrder", "removedWatch", "zeroDelayFirst")))
-    for bad, rb in bad_runs:
-        refuted[bad] = rb.violated == "ContractHolds"
-        chk.cov["tlc_runs"].append({"run": f"MC_EventLoop_bad_{bad}_must_fail", "violated": rb.violated, "generated": rb.generated})
-    chk.cov["contract_refutes_bad_loops"] = refuted
-    if not all(refuted.values()):
-        raise tlc.MachineryError(f"the C13 contract no longer refutes a deliberately wrong loop: {refuted}")
-
-    # ---- spec -> code: TLC scenarios on every loop -----------------------------------------------------
-    simcfg = MC_CFG.format(na=3, nf=2, ni=2, bad="", delays=_q([0, 10, 20]), ats=_q([9999, 0, 15]), abeh=_q(ABEH), wbeh=_q(WBEH), ibeh=_q(IBEH),
-                           busy=_q([0, 0, 1, 2, 3]))
-    simcfg = simcfg.replace("SPECIFICATION Spec", "SPECIFICATION SimSpec")
-    behs = tlc.simulate("EventLoop", simcfg, num=60 if quick else 1500, depth=3, seed=chk.seed, jobs=2 if quick else 8, timeout=1500)
-    scns = [scn_from_state(b[1]) for b in behs if len(b) > 1]
     n_rand = 60 if quick else 1500
-    scns += [random_scn(rng) for _ in range(n_rand)]
+    scns = [random_scn(rng) for _ in range(n_rand)]
     traces = []
     for sc in scns:
         for name in names:
@@ -423,6 +527,100 @@ def run(chk, loops_to_run=None):
         for name in names:
             traces.append(run_scenario(name, sc))
     chk.cov["late_idle_scenarios"], chk.cov["removed_watch_scenarios"] = len(lis), len(rws)
+    fams = {"rewatch_scenarios": rewatch_scns(rng, 30 if quick else 800), "raise_scenarios": raise_scns(rng, 24 if quick else 600),
+            "idle_churn_scenarios": idle_churn_scns(rng, 30 if quick else 800)}
+    for fam, scs in fams.items():
+        for sc in scs:
+            for name in names:
+                traces.append(run_scenario(name, sc))
+        chk.cov[fam] = len(scs)
+    chk.cov["random_scenarios"] = n_rand
+    return traces
+
+
+def run(chk, loops_to_run=None):
+    quick = chk.tier == "quick"
+    rng = chk.rng
+    names = loops_to_run or LOOPS
+    # ---- MC: the contract is satisfiable by a correct loop for every scenario; bad loops are refuted ----
+    if quick:
+        cfg = MC_CFG.format(na=2, nf=1, ni=2, bad="", delays=_q([0, 10]), ats=_q([9999, 0, 15]),
+                            abeh=_q(["noop", "addAlarm", "addIdle", "removeAlarmTwice", "removeWatch", "removeIdle", "slow", "error"]),
+                            wbeh=_q(["noop", "removeSelfWatch", "removeAlarm", "slow", "error"]), ibeh=_q(["noop", "removeIdle", "error"]), busy=_q([0]), pre=_q([]), maxpre=0)
+        # zero-delay alarms against overdue alarms: busy start-up after any alarm, slow callbacks that register a zero-delay alarm
+        cfg0 = MC_CFG.format(na=2, nf=1, ni=1, bad="", delays=_q([0, 10, 20]), ats=_q([0, 10]), abeh=_q(["noop", "addAlarm0", "slowAddAlarm0", "removeAlarm"]),
+                             wbeh=_q(["noop", "slowAddAlarm0"]), ibeh=_q(["noop"]), busy=_q([0, 1, 2]), pre=_q([]), maxpre=0)
+        # watches replaced while ready, idle callbacks replaced (before run() and from callbacks), both kinds of exception
+        cfg1 = MC_CFG.format(na=1, nf=2, ni=2, bad="", delays=_q([10]), ats=_q([0, 15]), abeh=_q(["noop", "replaceIdle", "rewatch", "base"]),
+                             wbeh=_q(["noop", "rewatch", "base"]), ibeh=_q(["noop", "base"]), busy=_q([0]),
+                             pre=_q(["removeIdle", "addIdle", "rewatch"]), maxpre=2)
+    else:
+        zero = ("addAlarm0", "slowAddAlarm0", "replaceIdle", "rewatch", "base")     # these have their own exhaustive runs (cfg0, cfg1): the scenario spaces add up instead of multiplying
+        # (two delays: before and after the descriptors' time; three delays with three alarms are in cfg0; 53 M states took 35 min on the loaded machine)
+        cfg = MC_CFG.format(na=2, nf=2, ni=2, bad="", delays=_q([0, 20]), ats=_q([9999, 0, 15]), abeh=_q([b for b in ABEH if b not in zero]),
+                            wbeh=_q([b for b in WBEH if b not in zero]), ibeh=_q(["noop", "removeIdle", "error"]), busy=_q([0]), pre=_q([]), maxpre=0)
+        cfg0 = MC_CFG.format(na=3, nf=1, ni=1, bad="", delays=_q([0, 10, 20]), ats=_q([0, 10]),
+                             abeh=_q(["noop", "addAlarm0", "slowAddAlarm0", "removeAlarm"]),
+                             wbeh=_q(["noop", "slowAddAlarm0"]), ibeh=_q(["noop"]), busy=_q([0, 1, 2, 3]), pre=_q([]), maxpre=0)
+        cfg1 = MC_CFG.format(na=2, nf=2, ni=2, bad="", delays=_q([0, 10]), ats=_q([0, 15]), abeh=_q(["noop", "replaceIdle", "rewatch", "base"]),
+                             wbeh=_q(["noop", "rewatch", "base"]), ibeh=_q(["noop", "base"]), busy=_q([0]),
+                             pre=_q(["removeIdle", "addIdle", "rewatch"]), maxpre=2)
+    with cf.ThreadPoolExecutor(3) as ex:      # the exhaustive runs overlap (JVM start dominates on a loaded machine) ...
+        f = ex.submit(tlc.mc, "EventLoop", cfg, workers=4 if quick else 6, timeout=3000, heap="12g")
+        if quick:
+            f0 = ex.submit(tlc.mc, "EventLoop", cfg0, workers=1, timeout=3000, heap="8g")
+            f1 = ex.submit(tlc.mc, "EventLoop", cfg1, workers=1, timeout=3000, heap="8g")
+        traces = directed_traces(chk, names, quick)      # ... and meanwhile the scenarios that need no TLC run on the real loops
+        r = f.result()
+        if not quick:      # the big run has had the machine's share to itself
+            f0 = ex.submit(tlc.mc, "EventLoop", cfg0, workers=3, timeout=3000, heap="8g")
+            f1 = ex.submit(tlc.mc, "EventLoop", cfg1, workers=3, timeout=3000, heap="8g")
+        r0, r1 = f0.result(), f1.result()
+    chk.add_mc("MC_EventLoop_contract_satisfiable", r)
+    chk.add_mc("MC_EventLoop_zero_delay_vs_overdue_satisfiable", r0)
+    chk.add_mc("MC_EventLoop_rewatch_idle_churn_base_exception_satisfiable", r1)
+    for rr in (r, r0, r1):
+        if not rr.ok:
+            chk.reject("C13.model." + str(rr.violated), {"model": "EventLoop"}, {"tlc_trace": rr.trace[-5:]})
+    refuted = {}
+
+    def refute(bad):
+        if bad == "zeroDelayFirst":
+            cfgb = MC_CFG.format(na=2, nf=1, ni=1, bad=bad, delays=_q([0, 10]), ats=_q([9999, 0]), abeh=_q(["noop", "slowAddAlarm0"]),
+                                 wbeh=_q(["noop", "slowAddAlarm0"]), ibeh=_q(["noop"]), busy=_q([0, 1]), pre=_q([]), maxpre=0)
+        elif bad == "staleWatch":
+            cfgb = MC_CFG.format(na=1, nf=2, ni=1, bad=bad, delays=_q([10]), ats=_q([0, 15]), abeh=_q(["noop"]), wbeh=_q(["noop", "rewatch", "removeWatch"]),
+                                 ibeh=_q(["noop"]), busy=_q([0]), pre=_q([]), maxpre=0)
+        elif bad == "swallowBase":
+            cfgb = MC_CFG.format(na=1, nf=1, ni=1, bad=bad, delays=_q([0, 10]), ats=_q([9999, 0]), abeh=_q(["noop", "base"]), wbeh=_q(["noop", "base"]),
+                                 ibeh=_q(["noop", "base"]), busy=_q([0]), pre=_q([]), maxpre=0)
+        elif bad == "idleHandleReuse":
+            cfgb = MC_CFG.format(na=2, nf=1, ni=2, bad=bad, delays=_q([0, 10]), ats=_q([9999]), abeh=_q(["noop", "removeIdle", "addIdle", "replaceIdle"]),
+                                 wbeh=_q(["noop"]), ibeh=_q(["noop"]), busy=_q([0]), pre=_q(["removeIdle", "addIdle"]), maxpre=2)
+        else:
+            cfgb = MC_CFG.format(na=2, nf=2, ni=1, bad=bad, delays=_q([0, 10]), ats=_q([9999, 0]), abeh=_q(["noop", "slow", "removeWatch"]),
+                                 wbeh=_q(["noop", "removeWatch", "slow"]), ibeh=_q(["noop"]), busy=_q([0]), pre=_q([]), maxpre=0)
+        return bad, tlc.mc("EventLoop", cfgb, workers=1, timeout=900)
+
+    pool = cf.ThreadPoolExecutor(4)      # small state spaces, one worker each; the simulation below runs next to them
+    bad_futs = [pool.submit(refute, bad) for bad in ("blockDirty", "alarmOrder", "removedWatch", "zeroDelayFirst", "staleWatch", "swallowBase", "idleHandleReuse")]
+    # ---- spec -> code: TLC scenarios on every loop -----------------------------------------------------
+    simcfg = MC_CFG.format(na=3, nf=2, ni=2, bad="", delays=_q([0, 10, 20]), ats=_q([9999, 0, 15]), abeh=_q(ABEH), wbeh=_q(WBEH), ibeh=_q(IBEH),
+                           busy=_q([0, 0, 1, 2, 3]), pre=_q(PRE), maxpre=2)
+    simcfg = simcfg.replace("SPECIFICATION Spec", "SPECIFICATION SimSpec")
+    behs = tlc.simulate("EventLoop", simcfg, num=60 if quick else 1500, depth=3, seed=chk.seed, jobs=2 if quick else 8, timeout=1500)
+    for sc in [scn_from_state(b[1]) for b in behs if len(b) > 1]:
+        for name in names:
+            traces.append(run_scenario(name, sc))
+    bad_runs = [bf.result() for bf in bad_futs]
+    pool.shutdown()
+    for bad, rb in bad_runs:
+        refuted[bad] = rb.violated == "ContractHolds"
+        chk.cov["tlc_runs"].append({"run": f"MC_EventLoop_bad_{bad}_must_fail", "violated": rb.violated, "generated": rb.generated})
+    chk.cov["contract_refutes_bad_loops"] = refuted
+    if not all(refuted.values()):
+        raise tlc.MachineryError(f"the C13 contract no longer refutes a deliberately wrong loop: {refuted}")
+
     res = tlc.validate("EventLoopTrace", traces, batch_events=20000, timeout=1500)
     chk.add_tv("TV_EventLoopTrace", res)
     _handle(chk, traces, res, "c13")
@@ -444,13 +642,17 @@ def run(chk, loops_to_run=None):
     chk.cov["rule"] = ("scenario = alarms (delay, behaviour) + watched descriptors (time readable, behaviour) + idle callbacks (behaviour) + final exit "
                        "alarm; scenarios from TLC -simulate of EventLoop.tla and seeded random; each run on the six real loops under virtual time; "
                        "distinct = distinct scenarios")
-    chk.cov["bounds"] = {"tlc_scenarios": len(behs), "random_scenarios": n_rand, "loops": names}
+    chk.cov["bounds"] = {"tlc_scenarios": len(behs), "random_scenarios": chk.cov["random_scenarios"], "loops": names}
     for name in names:
         for v in ("alarm_cb", "watch_cb", "idle_cb", "wait", "remove_alarm", "zero_delay_alarm_while_overdue.startup",
                   "zero_delay_alarm_while_overdue.callback", "idle_registered_late_with_none_active", "watch_removed_then_readable",
-                  "watch_removed_then_readable.fd0"):
+                  "watch_removed_then_readable.fd0", "ready_descriptor_rewatched_by_another_ready_one", "rewatched_descriptor_callback",
+                  "idle_registered_after_removal.startup", "idle_registered_after_removal.callback", "idle_callback_after_churn",
+                  "raise.base.alarm_cb", "raise.base.watch_cb", "raise.base.idle_cb"):
             if v.endswith(".fd0") and not loops.ADAPTERS[name].zero_ok:
                 continue
+            if v == "ready_descriptor_rewatched_by_another_ready_one" and name == "trio":
+                continue      # one trio task per watch: the loop is never told about several ready descriptors at once
             if not kinds.get(f"{name}.{v}"):
                 chk.vacuity.append(f"driver.{name}.{v}")
     chk.sample({"loop": traces[0]["loop"], "scn": traces[0]["scn"], "events": traces[0]["ev"][:40]})
